@@ -1,6 +1,6 @@
 (** C11 — merge: None exactly when every source has ended, Pending only while one is live *)
 From FB Require Import Base Syntax World SlotMap Fub Unbounded Step
-  WorldProofs FubProofs UnboundedProofs StepProofs Reach.
+  WorldProofs FubProofs UnboundedProofs StepProofs Reach LedgerProofs TokenLedger MergeLedger.
 
 (** MergeBounded: the "a source ended, go round again" loop never runs out of fuel, returns
     None iff no source is left, Pending / an item only while one is left; ended sources are
@@ -27,3 +27,42 @@ Theorem C11_merge_unbounded_poll :
   winv (cnt (blks (groups u'))) None w' /\ fu_ok true u' /\ loop_post true u u' sp.
 Proof. intros P. exact (@fu_poll_next_spec P true). Qed.
 Print Assumptions C11_merge_unbounded_poll.
+
+(** a source's counter [cseq] is the number of items it has produced: a poll of a source
+    increments it exactly when the source answers with an item *)
+Theorem C11_source_counter_counts_items :
+  forall (c : child) (b s : nat) (w : world),
+  let '(c', r, w') := poll_child KSrc c b s w in
+  cid c' = cid c /\ bsuf w w'
+  /\ (r = RI /\ cseq c' = S (cseq c) \/ r = RE /\ cseq c' = cseq c \/ r = RP /\ cseq c' = cseq c).
+Proof. exact poll_child_seq. Qed.
+Print Assumptions C11_source_counter_counts_items.
+
+(** whole histories of MergeBounded / MergeUnbounded (any interleaving of pushes - also while
+    the merge is being consumed -, polls, wake-ups, waker clones and drops) whose accepted
+    sources have distinct ids: the items handed out for each source are its items number
+    0, 1, 2, ... in that order: none missing in between, none twice, none out of order *)
+Theorem C11_merge_sources_in_order :
+  forall (P : params), params_ok P ->
+  forall (ops : list op), Forall m_op ops -> NoDup (taken_in P init_state ops) ->
+  forall id, exists n, seqs id (handed_in P init_state ops) = seq 0 n.
+Proof. exact merge_sources_in_order. Qed.
+Print Assumptions C11_merge_sources_in_order.
+
+(** and for a source the merge still holds that number is the number of items the source has
+    produced: every item a source has produced has been handed out by the very poll in which it
+    was produced *)
+Theorem C11_merge_held_source_fully_delivered :
+  forall (P : params), params_ok P ->
+  forall (ops : list op) (id : N) (n : nat), Forall m_op ops -> NoDup (taken_in P init_state ops) ->
+  In (id, n) (hs_coll (st_coll (reach P ops))) -> seqs id (handed_in P init_state ops) = seq 0 n.
+Proof. exact merge_held_source_fully_delivered. Qed.
+Print Assumptions C11_merge_held_source_fully_delivered.
+
+(** nothing else is ever handed out: every value a merge yields is an item of a source it was given *)
+Theorem C11_merge_hands_out_only_items_of_its_sources :
+  forall (P : params), params_ok P ->
+  forall (ops : list op), Forall m_op ops -> NoDup (taken_in P init_state ops) ->
+  Forall (fun t => exists id n, t = TItem id n /\ In id (taken_in P init_state ops)) (handed_in P init_state ops).
+Proof. exact merge_hands_out_only_items_of_its_sources. Qed.
+Print Assumptions C11_merge_hands_out_only_items_of_its_sources.
